@@ -181,12 +181,25 @@ func (a Atom) matches(p Pred, truth bool) bool {
 	// a record handed back by a lookup helper that returns the zero value on its failure paths:
 	// phi(nil|X) stands for X wherever the record is used after the helper's success was tested
 	if strings.Contains(p.A, "phi(") || strings.Contains(p.B, "phi(") {
+		// ... but not where the φ itself is compared with the very value that is dropped: `phi(X|nil) == nil`
+		// holding says nothing about X (the nil alternative may be the one that was taken — a helper with an
+		// early `return nil` in front of `return check(...)`); only the unequal outcome excludes the nil alternative
+		if p.Kind == "eq" && truth {
+			za, zb := isZeroTerm(p.A), isZeroTerm(p.B)
+			if (za && strings.HasPrefix(strings.TrimLeft(p.B, "~*"), "phi(")) || (zb && strings.HasPrefix(strings.TrimLeft(p.A, "~*"), "phi(")) {
+				return false
+			}
+		}
 		qa, qb := dropNilPhi(strings.ReplaceAll(p.A, "~", "")), dropNilPhi(strings.ReplaceAll(p.B, "~", ""))
 		if qa != p.A || qb != p.B {
 			return a.matches1(Pred{p.Kind, qa, qb}, truth)
 		}
 	}
 	return false
+}
+
+func isZeroTerm(s string) bool {
+	return s == "nil" || s == "0" || s == `""` || s == "false"
 }
 
 // DropNilPhi is dropNilPhi for rules that compare argument terms.
@@ -721,7 +734,8 @@ func (c *Checker) resultTest(v ssa.Value) (call *ssa.Call, idx int, emptyPol boo
 					x, emptyPol = lc.Call.Args[0], !pol
 				}
 			}
-		} else if k.Value == nil && (t.Op == token.EQL || t.Op == token.NEQ) {
+		} else if (k.Value == nil || isEmptyStringConst(k)) && (t.Op == token.EQL || t.Op == token.NEQ) {
+			// result == nil, or a string result compared with "" (a failure text handed back instead of an error)
 			x, emptyPol = cand, pol
 			if t.Op == token.NEQ {
 				emptyPol = !pol
@@ -782,9 +796,13 @@ func (c *Checker) resultImplies(call *ssa.Call, idx int, wantEmpty bool, atoms [
 		}
 		rv := ret.Results[idx]
 		k, isC := rv.(*ssa.Const)
-		isEmpty := isC && k.Value == nil
+		isEmpty := isC && (k.Value == nil || isEmptyStringConst(k))
 		if wantEmpty {
-			if !isEmpty && DefinitelyNonNil(rv, 0) {
+			if isString(rv.Type()) {
+				if !isEmpty && nonEmptyString(rv, b, 0) {
+					continue
+				}
+			} else if !isEmpty && DefinitelyNonNil(rv, 0) {
 				continue
 			}
 		} else if isEmpty {
@@ -1121,6 +1139,12 @@ func (c *Checker) edgeEstablishes(from, to *ssa.BasicBlock, atoms []Atom) bool {
 		}
 	}
 	return false
+}
+
+// NilResultImplies: the error handed back by the module helper called at `call` being nil implies one of the atoms
+// (every nil return site of the helper lies behind one of them, in the caller's vocabulary).
+func (c *Checker) NilResultImplies(call *ssa.Call, atoms []Atom) bool {
+	return c.helperImplies(call, true, true, atoms)
 }
 
 // ValueEstablishes: the boolean value v being `truth` establishes one of the atoms (by its own comparison).
@@ -1889,6 +1913,83 @@ func DefinitelyNonNil(v ssa.Value, d int) bool {
 		return true
 	case *ssa.ChangeInterface:
 		return DefinitelyNonNil(x.X, d+1)
+	}
+	return false
+}
+
+func isEmptyStringConst(k *ssa.Const) bool {
+	return k != nil && k.Value != nil && k.Value.Kind() == constant.String && constant.StringVal(k.Value) == ""
+}
+
+func isString(t types.Type) bool {
+	b, ok := t.Underlying().(*types.Basic)
+	return ok && b.Info()&types.IsString != 0
+}
+
+// nonEmptyString: a string value that cannot be "": a non-empty constant; the text of an error built by
+// sdkerrors.Wrap(f) ("<msg>: <parent>") or grpc status.Error(f) ("rpc error: code = ...") — both formats contain
+// literal text whatever their arguments are; a value the block is reached with only through the non-empty side of
+// a comparison with "".
+func nonEmptyString(v ssa.Value, b *ssa.BasicBlock, d int) bool {
+	if d > 4 {
+		return false
+	}
+	switch x := v.(type) {
+	case *ssa.Const:
+		return x.Value != nil && x.Value.Kind() == constant.String && constant.StringVal(x.Value) != ""
+	case *ssa.Call:
+		if x.Call.IsInvoke() && x.Call.Method.Name() == "Error" && len(x.Call.Args) == 0 {
+			if ec, ok := x.Call.Value.(*ssa.Call); ok {
+				name, pkg := "", ""
+				if sc := ec.Call.StaticCallee(); sc != nil && sc.Pkg != nil {
+					name, pkg = sc.Name(), sc.Pkg.Pkg.Path()
+				} else if u, ok := ec.Call.Value.(*ssa.UnOp); ok {
+					if g, ok := u.X.(*ssa.Global); ok && g.Pkg != nil {
+						name, pkg = g.Name(), g.Pkg.Pkg.Path()
+					}
+				}
+				switch {
+				case (name == "Wrap" || name == "Wrapf") && (strings.HasSuffix(pkg, "/errors") || strings.HasSuffix(pkg, "cosmossdk.io/errors")):
+					return len(ec.Call.Args) > 0 && (DefinitelyNonNil(ec.Call.Args[0], d+1) || testedNonNilAbove(ec.Call.Args[0], ec.Block()))
+				case (name == "Errorf" || name == "Error") && strings.HasSuffix(pkg, "grpc/status"):
+					return true
+				}
+			}
+			return false
+		}
+	}
+	return testedNonEmptyAbove(v, b)
+}
+
+// testedNonEmptyAbove: block b is reached only through the non-empty side of a test of the string e against "".
+func testedNonEmptyAbove(e ssa.Value, b *ssa.BasicBlock) bool {
+	if b == nil {
+		return false
+	}
+	for _, d := range b.Parent().Blocks {
+		iff := cfgx.IfOf(d)
+		if iff == nil || len(d.Succs) != 2 || d.Succs[0] == d.Succs[1] {
+			continue
+		}
+		v, pol := stripNot(iff.Cond)
+		bo, ok := v.(*ssa.BinOp)
+		if !ok || (bo.Op != token.NEQ && bo.Op != token.EQL) {
+			continue
+		}
+		x, y := bo.X, bo.Y
+		if c, isC := x.(*ssa.Const); isC && isEmptyStringConst(c) {
+			x, y = y, x
+		}
+		if c, isC := y.(*ssa.Const); !isC || !isEmptyStringConst(c) || x != e {
+			continue
+		}
+		side := d.Succs[0]
+		if (bo.Op == token.EQL) == pol {
+			side = d.Succs[1]
+		}
+		if len(side.Preds) == 1 && (side == b || side.Dominates(b)) {
+			return true
+		}
 	}
 	return false
 }
